@@ -97,6 +97,32 @@ func init() {
 					bitsCase(cw, p, fmt.Sprintf("burst start=%d w=%d fs=%d", start, w, fs), true)
 				}
 			}
+			// the checksum field replaced by near-misses of the right value: other byte orders, complements, rotations,
+			// bit order reversed, the checksum without its final inversion
+			{
+				good := binary.LittleEndian.Uint32(base[18+l:])
+				rev8 := func(x uint32) uint32 {
+					var r uint32
+					for k := 0; k < 32; k++ {
+						r |= (x >> uint(k) & 1) << uint(31-k)
+					}
+					return r
+				}
+				swap := good<<24 | good>>24 | (good&0xff00)<<8 | (good>>8)&0xff00
+				for _, nv := range []struct {
+					name string
+					v    uint32
+				}{{"byte-reversed", swap}, {"complement", ^good}, {"zero", 0}, {"ones", 0xffffffff}, {"rot8", good<<8 | good>>24}, {"rot16", good<<16 | good>>16},
+					{"bit-reversed", rev8(good)}, {"halves-swapped-bytes", (good&0x00ff00ff)<<8 | (good&0xff00ff00)>>8}, {"plus-one", good + 1}} {
+					name, v := nv.name, nv.v
+					if v == good {
+						continue
+					}
+					p := append([]byte{}, base...)
+					binary.LittleEndian.PutUint32(p[18+l:], v)
+					bitsCase(cw, p, fmt.Sprintf("crc-field %s fs=%d", name, fs), true)
+				}
+			}
 			// pairs of flips
 			pairs := 40
 			if thorough && len(base) <= 96 {
